@@ -14,6 +14,21 @@ Contracts (from the property statement; DESIGN.md §2 C04):
   arom  - the aromatic-carbon special cases of calc_implicit on ring carbons built with order-4 bonds (H1, H2, T).
   corpus- whole molecules after kekule()+thiele(): atom by atom vs RDKit (total H, charge), formula, charge, radical, MolWt;
           H1/H3 on the Kekule form; aromatic carbons: parse-time count == Kekule-derived count == recalculated count.
+Coverage audit extension (same contracts, input classes the domains above never contained):
+  gridq - charges -4,-3,+3,+4 (boundary of the documented charge range of Element.charge) and hydrogen as the central atom (H, H+, H-, H*).
+  numb  - the star states built through the *public* incremental API (add_atom / add_bond with their own recalculation over `_changed`)
+          under atom numbers that are not 1..N (descending, gaps, >= 999, 65530+), neighbours inserted in seeded order.
+  gen   - whole generated molecules WITHOUT validity filter (bounded/d04_gen.py): over-valent atoms, charges / radicals anywhere, isotopes,
+          explicit H, second components, "any" bonds to metals, non-trivial numbering: H1-H3 on every atom, T with isotope masses;
+          copy() / substructure() / split() / union keep or recompute the counts (H1 on the result, totals add up).
+  edit  - seeded scripts of public edits (add_atom, add_bond, delete_bond, delete_atom, transactions changing charge / radical) on generated
+          molecules and on Kekule forms of corpus molecules: H1, H2, T after every step.
+  reader- star states written as SMILES bracket atoms with every stated hydrogen count 0..4 (reader options: default, ignore_carbon_radicals,
+          keep_implicit, ignore=False, remap; radicals through CXSMILES) and as V2000 molfiles (charge field / M  CHG, M  RAD, M  ISO; remap):
+          every atom without a stated count has the first candidate; a stated count is kept only if it is a candidate of the final state;
+          no count <=> no candidate <=> reported by check_valence().
+  special- empty molecule, single isotopic atoms, multi-component totals (radical / charge only in a later component), explicit-H forms
+          (explicify_hydrogens keeps brutto, charge, mass).
 """
 import itertools
 from collections import Counter
@@ -127,7 +142,7 @@ def check_atoms(m, tag, aromatic=False, h3=None, atoms=None, none_other=None):
             bad.append(('H1-table-rederivation', f'{tag}: atom {n} {a.atomic_symbol}{a.charge:+d}{"*" if a.is_radical else ""} with bonds '
                         f'[{envtext(envn)}] has implicit_hydrogens={a.implicit_hydrogens}, the element tables give {exp}',
                         {'atom': n, 'library': a.implicit_hydrogens, 'reference': exp}))
-        if (h3 is None or n in h3) and a.atomic_symbol != 'H':
+        if h3 is None or n in h3:
             for h in range(5):
                 got = m.check_implicit(n, h)
                 if got != (h in cand):
@@ -146,6 +161,7 @@ def check_atoms(m, tag, aromatic=False, h3=None, atoms=None, none_other=None):
 def check_totals(m, tag):
     """T: derived totals are sums over atoms including implicit hydrogens (only when every atom has a count)"""
     from oracles import o04_valence as O
+    from oracles import o04_masses as O5
     bad = []
     hs = [a.implicit_hydrogens for _, a in m.atoms()]
     if any(h is None for h in hs):
@@ -164,7 +180,8 @@ def check_totals(m, tag):
     r = any(a.is_radical for _, a in m.atoms())
     if m.is_radical is not r:
         bad.append(('T-radical', f'{tag}: mol.is_radical = {m.is_radical} != any(atom radical) {r}', {'library': m.is_radical, 'reference': r}))
-    w = sum(O.rdkit_weight(a.atomic_number) for _, a in m.atoms()) + nh * O.rdkit_weight(1)
+    w = sum(O.rdkit_weight(a.atomic_number) if a.isotope is None else O5.isotope_mass(a.atomic_number, a.isotope) for _, a in m.atoms()) \
+        + nh * O.rdkit_weight(1)
     fm = float(m)
     if abs(fm - w) > 0.05:
         bad.append(('T-mass', f'{tag}: float(mol) = {fm:.4f} != sum of standard atomic weights incl. implicit H {w:.4f}',
